@@ -78,7 +78,9 @@ def build_circuit(E, x, y, layers):
     from discopy.quantum import gates as G
     from discopy.quantum.circuit import Id
     n = 2
-    c = G.Ket(0, 0)
+    # |++>: every basis state has an amplitude (diagonal and controlled
+    # gates act non-trivially)
+    c = G.Ket(0, 0) >> G.H @ G.H
     for l in range(layers):
         kind = E.choice('kind%d' % l, ['Rx', 'Rz', 'Ry', 'CRz', 'CRx', 'CU1',
                                        'scalar', 'mixedscalar', 'sqrt', 'H',
